@@ -812,7 +812,7 @@ def c12(tier):
     # power-loss IMAGES: the crash image is cut down to what stable storage may hold (unsynced log tail gone or torn,
     # table / index files as at their last msync in any combination); the recovered state must still be a prefix
     # that contains every synced record
-    npl = 10 if thorough else 3
+    npl = 10 if thorough else 4
     plsets = colsets + [[{"kind": "hash", "uniform": True, "collide": True}]]
     for j in range(npl):
         cs = plsets[j % len(plsets)]
